@@ -63,38 +63,66 @@ def initial_values(case, perturb=None):
     return out
 
 
+def jitter_kind(case, name):
+    """
+    Which jitter function the harness registers for a position key. Different position
+    keys get genuinely different functions: the tracked-only key "w" always gets its own
+    (+3), and in the "det" configurations every odd kernel key gets the non-element-wise
+    "sum" function instead.
+    """
+    j = case["jitter"]
+    if j == "none":
+        return "none"
+    if name == "w":
+        return "w3"
+    idx = int(name[1:]) if case["kind"] == "tracer" else {"a": 0, "b": 1}[name]
+    if j == "det" and idx % 2 == 1:
+        return "sum"
+    return j
+
+
+def jittered_names(case):
+    if case["jitter"] == "none":
+        return []
+    base = [f"x{i}" for i in range(case["nk"])] if case["kind"] == "tracer" else ["a", "b"]
+    return base + ["w"]
+
+
 def expected_first_sample(case, leaves):
     """name -> expected array [chains, ...] of the first stored sample (where the
     jitter makes it a function of the initial value and observed key words)."""
     init = initial_values(case, None)
-    exp = {"w": init["w"]}
-    j = case["jitter"]
-    if case["kind"] == "tracer":
-        for i in range(case["nk"]):
-            x = init[f"x{i}"].copy()
-            if j == "det":
+    exp = {}
+    tracer = case["kind"] == "tracer"
+    names = ([f"x{i}" for i in range(case["nk"])] if tracer else ["a", "b"]) + ["w"]
+    for name in names:
+        k = jitter_kind(case, name)
+        x = init[name].copy()
+        if k == "none":
+            pass
+        elif k == "w3":
+            x = (x + x.dtype.type(3)).astype(x.dtype)
+        elif tracer:
+            if k == "det":
                 x[:, 0] = x[:, 0] * np.uint32(2) + np.uint32(7)
-            elif j == "sum":
+            elif k == "sum":
                 # non-element-wise: own first entry + sum of the chain's OWN entries
                 for c in range(x.shape[0]):
-                    x[c, 0] = np.uint32((int(x[c, 0]) + sum(int(v) for v in init[f"x{i}"][c])) % (1 << 32))
-            elif j == "key":
-                got = leaves[f"['positions']['x{i}']"][:, 0]
+                    x[c, 0] = np.uint32((int(x[c, 0]) + sum(int(v) for v in init[name][c])) % (1 << 32))
+            elif k == "key":
+                got = leaves[f"['positions']['{name}']"][:, 0]
                 k0 = got[:, 1].astype(np.uint32)
                 k1 = got[:, 2].astype(np.uint32)
                 x = np.stack([x[:, 0] + (k0 ^ k1), k0, k1], axis=1).astype(np.uint32)
-            exp[f"x{i}"] = x
-    else:
-        if j == "det":
-            exp["a"] = init["a"] + np.float32(0.25)
-            exp["b"] = init["b"] + np.float32(0.25)
-        elif j == "sum":
+        else:
             # dyadic values: exact in float32
-            exp["a"] = (init["a"] + init["a"]).astype(np.float32)
-            exp["b"] = (init["b"] + init["b"].sum(axis=1, keepdims=True)).astype(np.float32)
-        elif j == "none":
-            exp["a"] = init["a"]
-            exp["b"] = init["b"]
+            if k == "det":
+                x = x + np.float32(0.25)
+            elif k == "sum":
+                x = (x + x.reshape(x.shape[0], -1).sum(axis=1).reshape((-1,) + (1,) * (x.ndim - 1))).astype(np.float32)
+            elif k == "key":
+                continue  # value not a function of observables; range-checked by the harness
+        exp[name] = x
     return exp
 
 
